@@ -1230,6 +1230,145 @@ def shift_search(ctx, par, fixed):
     ctx.ob("C06_search_shift", bad == 0, "search", f"{bad} disagreements" if bad else "")
 
 
+def shift_shots_search(ctx, par, fixed):
+    """shot-based mode of parameter_shift (`nshots` given): diagonal (Z-string)
+    observables, dense and symbolic, random NON-default initial state vectors, circuits
+    chosen so that the derivative for the given state and the one for |0...0> differ
+    clearly.  The backend is seeded, the tolerance is 7 standard errors of the estimate
+    (bounded through the eigenvalue range), so the clean tree cannot alarm."""
+    import sympy  # noqa: F401  (qibo.symbols needs it)
+    from qibo import hamiltonians
+    from qibo.backends import NumpyBackend
+    from qibo.derivative import parameter_shift
+    from qibo.symbols import Z
+
+    rnd = ctx.rng
+    rot = ["RX", "RY", "RZ"]
+    NSHOTS = 200000
+    sb = NumpyBackend()
+    bseed = rnd.randrange(2**31)
+    sb.set_seed(bseed)
+    nb = qgates.np_backend()
+    bad = 0
+    want = 8 if ctx.thorough else 4
+    clear = 0
+    attempts = 0
+    while clear < want and attempts < 60:
+        attempts += 1
+        n = rnd.randint(1, 3)
+        recipe = []
+        for _ in range(rnd.randint(2, 6)):
+            r = rnd.random()
+            if r < 0.6:
+                nm = rnd.choice(rot)
+                recipe.append({"name": nm, "cls": par[nm], "qs": [rnd.randrange(n)], "vals": rand_value(par[nm], rnd), "trainable": rnd.random() < 0.85, "controls": []})
+            else:
+                nm = rnd.choice(["H", "CNOT", "CZ", "X"])
+                if fixed.get(nm, 9) <= n:
+                    recipe.append({"name": nm, "cls": None, "qs": rnd.sample(range(n), fixed[nm]), "vals": None, "trainable": False, "controls": []})
+        tidx = [i for i, it in enumerate(recipe) if it["cls"] is not None and it["trainable"]]
+        if not tidx:
+            continue
+        # Z-string observable: sum_k coef_k prod_{q in S_k} Z_q + const
+        terms = []
+        for _ in range(rnd.randint(1, 3)):
+            qs = sorted(rnd.sample(range(n), rnd.randint(1, n)))
+            terms.append((rnd.choice([1.0, -1.0, 0.5, 1.5]), qs))
+        const = rnd.choice([0.0, 0.0, 0.3])
+        diag = np.full(2**n, const)
+        for coef, qs in terms:
+            for b in range(2**n):
+                ones = sum((b >> (n - 1 - q)) & 1 for q in qs)
+                diag[b] += coef * (-1) ** ones
+        spread = float(diag.max() - diag.min())
+        if spread < 1e-9:
+            continue
+        rs = np.random.RandomState(rnd.randrange(2**31))
+        psi = rs.randn(2**n) + 1j * rs.randn(2**n)
+        psi /= np.linalg.norm(psi)
+        zero = np.zeros(2**n, complex)
+        zero[0] = 1
+        cur = {i: it["vals"] for i, it in enumerate(recipe) if it["cls"] is not None}
+
+        def fval(i, th, init):
+            vals = dict(cur)
+            vals[i] = [th]
+            st = np.asarray(nb.execute_circuit(build(n, recipe, vals), initial_state=init.copy()).state())
+            return float(np.real(np.sum(np.abs(st) ** 2 * diag)))
+
+        def deriv(i, init):
+            th, h = cur[i][0], 1e-2
+            d1 = (fval(i, th + h, init) - fval(i, th - h, init)) / (2 * h)
+            d2 = (fval(i, th + h / 2, init) - fval(i, th - h / 2, init)) / h
+            return (4 * d2 - d1) / 3
+
+        se1 = 0.5 * spread / math.sqrt(2 * NSHOTS)  # bound on the std of r (F - B), r = 1/2
+        j = rnd.randrange(len(tidx))
+        i = tidx[j]
+        ref, ref0 = deriv(i, psi), deriv(i, zero)
+        is_clear = abs(ref - ref0) > 25 * se1
+        if not is_clear and attempts < 50:
+            continue
+        clear += 1
+        symbolic = clear % 2 == 0
+        scale = rnd.choice([-1.5, 0.5, 2.0])
+        ctx.case(("shift-shots", n, tuple(it["name"] for it in recipe), j, symbolic))
+        ctx.stat("shift_shots_symbolic" if symbolic else "shift_shots_dense")
+        ctx.stat("shift_shots_clearly_state_dependent" if is_clear else "shift_shots_weakly_state_dependent")
+        if symbolic:
+            expr = const
+            for coef, qs in terms:
+                t = coef
+                for q in qs:
+                    t = t * Z(q)
+                expr = expr + t
+            ham = hamiltonians.SymbolicHamiltonian(expr, nqubits=n, backend=sb)
+            hcode = ("from qibo.symbols import Z\nexpr = " + repr(const) + "".join(" + " + repr(coef) + "".join(f"*Z({q})" for q in qs) for coef, qs in terms)
+                     + f"\nham = hamiltonians.SymbolicHamiltonian(expr, nqubits={n}, backend=sb)\n")
+        else:
+            ham = hamiltonians.Hamiltonian(n, np.diag(diag).astype(complex), backend=sb)
+            hcode = f"ham = hamiltonians.Hamiltonian({n}, np.diag(np.array({diag.tolist()})).astype(complex), backend=sb)\n"
+        mcode = f"c.add(gates.M(*range({n})))\n"
+        pre = ("from qibo import Circuit, gates, hamiltonians; import numpy as np\nfrom qibo.backends import NumpyBackend\n"
+               f"from qibo.derivative import parameter_shift\nsb = NumpyBackend(); sb.set_seed({bseed})\n" + build_code(n, recipe) + mcode + hcode
+               + f"psi = np.array({psi.tolist()})\nkeep = psi.copy()\nbefore = c.get_parameters('list', True)\n")
+        try:
+            c = build(n, recipe)
+            from qibo import gates as _qg
+
+            c.add(_qg.M(*range(n)))
+            before = [tuple(p) for p in c.get_parameters("list", True)]
+            keep = psi.copy()
+            got = parameter_shift(c, ham, j, initial_state=psi, nshots=NSHOTS)
+            got_s = parameter_shift(c, ham, j, initial_state=psi, scale_factor=scale, nshots=NSHOTS)
+            exact = parameter_shift(c, ham, j, initial_state=psi)
+            after = [tuple(p) for p in c.get_parameters("list", True)]
+        except Exception as e:
+            bad += 1
+            ctx.fail("parameter_shift:shots:raises", f"parameter_shift with nshots and an initial state raises {type(e).__name__}: {e}",
+                     pre + f"parameter_shift(c, ham, {j}, initial_state=psi, nshots={NSHOTS})\n", observed=f"{type(e).__name__}: {e}", broken=["C06_search_shift_shots"])
+            continue
+        tol, tol_s = 7 * se1 + 1e-9, 7 * se1 * abs(scale) + 1e-9
+        unchanged = np.array_equal(psi, keep) and all(np.allclose(x, y, atol=1e-12) for x, y in zip(before, after))
+        if not unchanged:
+            bad += 1
+            ctx.fail("parameter_shift:shots:mutates", "parameter_shift (shot-based) changes the circuit's parameters or the caller's initial_state array",
+                     pre + f"parameter_shift(c, ham, {j}, initial_state=psi, nshots={NSHOTS})\nassert np.array_equal(psi, keep)\n"
+                     "assert all(np.allclose(x, y) for x, y in zip(before, c.get_parameters('list', True)))\n", broken=["C06_search_shift_shots"])
+        if abs(got - ref) > tol or abs(got_s - scale * ref) > tol_s or abs(exact - ref) > 1e-6:
+            bad += 1
+            which = "exact" if abs(exact - ref) > 1e-6 else "shots"
+            ctx.fail("parameter_shift:shots:initial-state" if which == "shots" else "parameter_shift:measured-circuit",
+                     f"parameter_shift ({which} mode, nshots={NSHOTS}, non-default initial state) w.r.t. parameter {j} returns {got if which == 'shots' else exact:.5f} "
+                     f"(scale {scale}: {got_s:.5f}); the derivative for the given state is {ref:.5f}, for |0...0> it is {ref0:.5f}; tolerance {tol:.5f} = 7 standard errors",
+                     pre + f"got = parameter_shift(c, ham, {j}, initial_state=psi, nshots={NSHOTS})\n"
+                     f"got_s = parameter_shift(c, ham, {j}, initial_state=psi, scale_factor={scale!r}, nshots={NSHOTS})\n"
+                     f"exact = parameter_shift(c, ham, {j}, initial_state=psi)\nprint(got, got_s, exact)\n"
+                     f"assert abs(exact - ({ref!r})) < 1e-6\nassert abs(got - ({ref!r})) < {tol!r} and abs(got_s - ({scale * ref!r})) < {tol_s!r}\n",
+                     expected=ref, observed=got, broken=["C06_search_shift_shots"])
+    ctx.ob("C06_search_shift_shots", bad == 0, "search", f"{bad} disagreements" if bad else "")
+
+
 def run(ctx):
     MODULES, THEOREMS = registry(PROP)
     ctx.theorems = THEOREMS
@@ -1240,10 +1379,11 @@ def run(ctx):
     bookkeeping_correspondence(ctx, par, fixed)
     views_search(ctx, par, fixed)
     shift_search(ctx, par, fixed)
+    shift_shots_search(ctx, par, fixed)
     from props import C06_gateobj
     C06_gateobj.run_suites(ctx)
     ctx.trusted.append("QV.Model.Params is a hand model of Circuit.add/set_parameters/get_parameters/invert/copy bookkeeping, tied by exact correspondence on integer-valued histories (DriverC06.lean)")
     ctx.notes.append("bookkeeping: all gate sequences up to length 3 (4 thorough) over widths 1-4 x trainable/non-trainable/fixed plus random circuits over every parametrised class, histories of list/flat/dict updates (valid and refused), gets in 3 formats, invert, deep copy — exact integer comparison with the Lean model; "
                      "views: every parametrised class x 3 formats and random mixed circuits, 29 derived views after each of 1-3 updates vs a freshly built circuit (1e-10), derived circuits updated themselves, deep-copy isolation; "
-                     "parameter_shift vs Richardson finite difference of the real expectation (1e-6)")
+                     "parameter_shift vs Richardson finite difference of the real expectation (1e-6); shot-based parameter_shift (2e5 shots, seeded backend, dense and symbolic Z-string observables, random non-default initial states, scale_factor) within 7 standard errors")
     ctx.assumptions.append("parameter-shift theorem: the circuit depends on the differentiated parameter through one gate of the form cos(t/2) 1 - i sin(t/2) P (checked numerically for RX, RY, RZ); finite_differences is only compared numerically")
